@@ -567,4 +567,11 @@ PROPS['C19']['proved_part'] += '; the observables Context.objects / properties /
 PROPS['C20']['units'] += ['lattices._annotate', 'lattices._init', 'contexts.intension', 'contexts.extension']      # the reduced labelling the drawing shows (C10 chain)
 PROPS['C17']['units'] += [u for u in ('definitions.remove_empty_objects', 'definitions.remove_empty_properties', 'definitions.take', 'definitions.union_update',
                                        'definitions.intersection_update', 'tools.Unique.rsub', 'tools.maximal', 'contexts.relations') if u not in PROPS['C17']['units']]
+PROPS['C12']['units'] += ['lemma.cxt.roundtrip', 'formats.cxt.Cxt.loadf.written']
+PROPS['C12']['proved_part'] += ('; CHARACTER level for cxt: lemma.cxt.roundtrip / Cxt.loadf.written -- under the representability precondition (at least one object and property, labels '
+                                'non-empty, without line breaks, not starting or ending with a str.isspace character) Cxt.loadf applied to the text Cxt.dumpf wrote returns the given '
+                                'objects, properties and cells; text lemmas (strip / split / join / decimal / rows) proved in Lean over List Char (lemmas/Text.lean)')
+PROPS['C12']['bounded_part'] = ('that CPython\'s str.strip/split/join/int/format/isspace, print and io.StringIO compute the List Char definitions of lemmas/Text.lean (validated: 1.3M instances incl. every '
+                                'code point, and the Lean definitions evaluated against CPython); the characters of the other text formats (table, csv quoting, wiki-table, repr/literal_eval), '
+                                'real files and codecs -- round trips and independent reference readers/writers over the stated scopes')
 NOT_APPLICABLE = {}
